@@ -20,8 +20,9 @@ CLAIM = {
             "ChannelEntry / ChainTrackerEntry are filled from the same-named live fields and restored into the "
             "same-named slots (argument positions checked against parameter names), and the restored "
             "EnforcementState is installed unmodified; (R11.3) BackupPersister forwards every write to main (when "
-            "ready, error propagated) and to backup with the same arguments and reads from exactly one side. Does not "
-            "decide value equality after a JSON round trip nor the cloud prepare/commit window (C16).",
+            "ready, error propagated) and to backup with the same arguments and reads from exactly one side; "
+            "(R11.4) no change of the in-memory allowlist can be followed by a refusal (running == restorable also on "
+            "error returns; the other durable classes are C10 R10.1). Does not decide value equality after a JSON round trip nor the cloud prepare/commit window (C16).",
     "note": "storage layer below Persist trusted; serde derive honours attributes; CHA for dyn Persist",
     "technique": "static analysis: persist-before-acknowledge dataflow (mutation summaries + must-pass persister completion) "
                  "+ persist/restore sibling agreement",
@@ -63,6 +64,7 @@ def run(ctx):
     r111(ctx)
     r112(ctx)
     r113(ctx)
+    r114(ctx)
 
 
 def r111(ctx):
@@ -323,3 +325,37 @@ def r113(ctx):
                 ctx.ob("R11.3", not fv.reaches(mb, bb_) and not fv.reaches(bb_, mb), f"{m}/reads-exclusive",
                        f"BackupPersister::{m} can consult both persisters in one call", where=f"{b.file}:{b.line}",
                        sample="main and backup reads on exclusive branches")
+
+
+def r114(ctx):
+    ctx.rule("R11.4", "a refused request leaves the running allowlist equal to the stored one: no change of "
+                      "NodeState.allowlist can be followed by a refusal (other durable classes: C10 R10.1)")
+    p = ctx.prog
+    cl = effects.Classes({"allowlist": [("node::NodeState", "allowlist")]})
+    eff = effects.Effects(ctx, cl)
+    storage = lambda n: any(f(n) for f in PERSISTERS.values())
+    n = 0
+    for b in sorted(p.bodies.values(), key=lambda x: x.name):
+        if b.d.kind != "AssocFn" or not b.d.pub or b.d.krate != "lightning_signer" or "::node::Node::" not in b.name:
+            continue
+        if R.is_test_util(b.name) or b.name.endswith(NOT_REQUESTS) or "Result<" not in b.local_tys[0]:
+            continue
+        if "allowlist" not in eff.summary(b):
+            continue
+        n += 1
+        pairs = effects.e5_pairs(ctx, eff, b, storage)
+        if not pairs:
+            ctx.ob("R11.4", True, f"{b.name}/allowlist/atomic", "", where=f"{b.file}:{b.line}",
+                   sample="no allowlist change can be followed by a refusal")
+            continue
+        seen = set()
+        for (bi, cs, desc, ln), x in pairs:
+            tag = desc.split("(")[0].replace("call ", "").rsplit("::", 1)[-1].replace(" ", "_")
+            if tag in seen:
+                continue
+            seen.add(tag)
+            ctx.ob("R11.4", False, f"{b.name}/allowlist/{tag}/then-refusal",
+                   f"`{b.name}` changes the in-memory allowlist ({desc}, line {ln}) and can still refuse the request "
+                   f"(error exit at line {x['line']}) before persisting: the running signer's allowlist then differs from "
+                   f"what a restart restores", where=f"{b.file}:{ln}")
+    ctx.floor("R11.4", "Node methods changing the allowlist", n, 3)
